@@ -458,10 +458,34 @@ def flag_variants(cases, tier):
     return out
 
 
+def zero_extent_cases(tier):
+    """an empty batch through the building blocks: backward completes, gradients have their operands' shapes, weights get zero"""
+    f = NF()
+    cs = []
+
+    def add(name, key, leaves, build, **kw):
+        cs.append(VCase(name, dict(key, op=name, zero_extent=True), leaves, build, **kw))
+    for nm in ("relu", "tanh", "sigmoid", "selu"):
+        add("nn.functional." + nm, {"shape": (0, 3)}, [Leaf("x", (0, 3))], lambda T, K, nm=nm: getattr(f, nm)(T["x"]))
+    for dim in (0, 1, -1):
+        add("nn.functional.softmax", {"shape": (0, 3), "dim": dim}, [Leaf("x", (0, 3))], lambda T, K, dim=dim: f.softmax(T["x"], dim))
+        add("nn.functional.log_softmax", {"shape": (0, 3), "dim": dim}, [Leaf("x", (0, 3))], lambda T, K, dim=dim: f.log_softmax(T["x"], dim))
+    add("nn.functional.linear", {"N": 0, "in": 3, "out": 2, "bias": True}, [Leaf("x", (0, 3)), Leaf("w", (2, 3)), Leaf("b", (2,))], lambda T, K: f.linear(T["x"], T["w"], T["b"]))
+    add("nn.functional.linear", {"N": 0, "in": 3, "out": 2, "bias": False}, [Leaf("x", (0, 3)), Leaf("w", (2, 3))], lambda T, K: f.linear(T["x"], T["w"]))
+    add("nn.functional.conv1d", {"shape": (0, 2, 5), "kernel": 2}, [Leaf("x", (0, 2, 5)), Leaf("w", (3, 2, 2)), Leaf("b", (3,))], lambda T, K: f.conv1d(T["x"], T["w"], T["b"]))
+    add("nn.functional.conv2d", {"shape": (0, 1, 3, 3), "kernel": 2}, [Leaf("x", (0, 1, 3, 3)), Leaf("w", (2, 1, 2, 2)), Leaf("b", (2,))], lambda T, K: f.conv2d(T["x"], T["w"], T["b"]))
+    for kind in ("max", "avg"):
+        add("nn.functional.%s_pool1d" % kind, {"shape": (0, 2, 4), "kernel": 2}, [Leaf("x", (0, 2, 4))], lambda T, K, kind=kind: getattr(f, kind + "_pool1d")(T["x"], 2))
+        add("nn.functional.%s_pool2d" % kind, {"shape": (0, 1, 4, 4), "kernel": 2}, [Leaf("x", (0, 1, 4, 4))], lambda T, K, kind=kind: getattr(f, kind + "_pool2d")(T["x"], 2))
+    add("nn.functional.unfold", {"shape": (0, 1, 3, 3), "kernel": 2}, [Leaf("x", (0, 1, 3, 3))], lambda T, K: f.unfold(T["x"], 2))
+    add("nn.functional.mse_loss", {"shape": (0, 3), "reduction": "sum"}, [Leaf("p", (0, 3)), Leaf("t", (0, 3))], lambda T, K: nn().MSELoss(reduction="sum")(T["p"], T["t"]))
+    return cs
+
+
 def all_cases(tier="quick"):
     from .tensor_ops import layout_variants
     cases = []
-    for g in (activation_cases, loss_cases, linear_cases, conv_cases, pool_cases, fold_cases, batchnorm_cases, dropout_cases):
+    for g in (activation_cases, loss_cases, linear_cases, conv_cases, pool_cases, fold_cases, batchnorm_cases, dropout_cases, zero_extent_cases):
         cases.extend(g(tier))
     base = list(cases)
     cases.extend(flag_variants(base, tier))
